@@ -25,6 +25,13 @@ struct Gen {
     subs: Vec<(usize, i64)>,
     next_tok: Vec<i64>,
     profile: String,
+    /// vars holding a node handle (Var<Incr>), expert nodes with an observability callback, memo tables
+    nvars: Vec<usize>,
+    experts: Vec<usize>,
+    memos: usize,
+    /// at most one injected crash point per program
+    crash: bool,
+    nupd: usize,
 }
 
 impl Gen {
@@ -42,7 +49,7 @@ impl Gen {
     }
     fn recipe(&mut self, depth: usize) -> J {
         let ints = self.ints();
-        let r = self.rng.gen_range(0..if depth > 0 { 7 } else { 4 });
+        let r = self.rng.gen_range(0..if depth > 0 { 8 } else { 4 });
         match r {
             0 => {
                 let alts: Vec<usize> = (0..self.k).map(|_| self.pick(&ints)).collect();
@@ -56,6 +63,11 @@ impl Gen {
                 json!({"r": "alt", "alts": alts})
             }
             5 => json!({"r": "bind", "over": self.pick(&ints), "inner": self.recipe(depth - 1)}),
+            6 if self.memos > 0 => json!({"r": "memo", "m": 1}),
+            6 if self.profile == "all" && !self.crash && self.rng.gen_bool(0.3) => {
+                self.crash = true;
+                json!({"r": "boom", "then": self.recipe(0)})
+            }
             _ => json!({"r": "junk", "pre": {"r": "map", "f": "add", "over": self.pick(&ints)}, "then": self.recipe(0)}),
         }
     }
@@ -73,6 +85,23 @@ impl Gen {
         }
         if building {
             let binds = self.profile != "core";
+            if self.profile == "all" && self.rng.gen_bool(0.2) {
+                let vars_int: Vec<usize> = self.vars.iter().copied().filter(|v| self.tys[*v - 1] == Ty::Int).collect();
+                return match self.rng.gen_range(0..5) {
+                    0 => json!({"a": "xcell", "in": self.pick(&ints)}),
+                    1 if !vars_int.is_empty() => json!({"a": "xsum", "sel": self.pick(&vars_int), "ins": [self.pick(&ints), self.pick(&ints)]}),
+                    2 => json!({"a": "var", "v": ["n", self.pick(&ints), 0]}),
+                    3 if !self.nvars.is_empty() => json!({"a": "xjoin", "in": self.pick(&self.nvars.clone())}),
+                    4 if self.memos == 0 => {
+                        if self.rng.gen_bool(0.5) {
+                            json!({"a": "memo_new", "f": "const", "over": 0})
+                        } else {
+                            json!({"a": "memo_new", "f": self.pick(&["add", "max"]), "over": self.pick(&ints)})
+                        }
+                    }
+                    _ => json!({"a": "xcell", "in": self.pick(&ints)}),
+                };
+            }
             let c = self.rng.gen_range(0..if binds { 14 } else { 10 });
             return match c {
                 0 => json!({"a": "var", "v": self.ival()}),
@@ -107,13 +136,38 @@ impl Gen {
                 }
                 10 => {
                     let cands: Vec<usize> = ints.clone();
-                    json!({"a": "cutoff", "n": self.pick(&cands), "c": self.pick(&["never", "always", "min1", "le", "eq"])})
+                    if self.profile == "all" && !self.crash && self.rng.gen_bool(0.1) {
+                        self.crash = true;
+                        json!({"a": "cutoff", "n": self.pick(&cands), "c": "boom"})
+                    } else {
+                        json!({"a": "cutoff", "n": self.pick(&cands), "c": self.pick(&["never", "always", "min1", "le", "eq"])})
+                    }
                 }
                 _ => json!({"a": "bind", "in": self.pick(&ints), "recipe": self.recipe(1)}),
             };
         }
-        let c = self.rng.gen_range(0..20);
+        let c = self.rng.gen_range(0..22);
         match c {
+            20 if !self.nvars.is_empty() => {
+                // re-point a Var<Incr> at another (older, hence acyclic) node
+                let v = self.pick(&self.nvars.clone());
+                let older: Vec<usize> = ints.iter().copied().filter(|n| *n < v).collect();
+                if older.is_empty() {
+                    json!({"a": "stabilise"})
+                } else {
+                    json!({"a": "write", "n": v, "op": "set", "x": ["n", self.pick(&older), 0]})
+                }
+            }
+            19 if self.profile == "all" && self.nupd < 3 => {
+                // a node-level on_update handler on any visible node
+                self.nupd += 1;
+                let visible: Vec<usize> = (1..=self.tys.len()).filter(|i| self.tys[i - 1] != Ty::Hidden).collect();
+                json!({"a": "on_update", "n": self.pick(&visible)})
+            }
+            21 if !self.experts.is_empty() && !self.crash => {
+                self.crash = true;
+                json!({"a": "xarm", "n": self.pick(&self.experts.clone())})
+            }
             0..=6 => {
                 let v = self.pick(&self.vars.clone());
                 let op = self.pick(&["set", "set", "set", "update", "modify", "replace", "replace_with"]);
@@ -152,10 +206,20 @@ impl Gen {
         }
         let set = |tys: &mut Vec<Ty>, id: usize, t: Ty| tys[id - 1] = t;
         match kind {
+            "var" if a["v"][0] == "n" => {
+                set(&mut self.tys, before + 1, Ty::Hidden);
+                self.nvars.push(before + 1);
+            }
             "var" => {
                 set(&mut self.tys, before + 1, Ty::Int);
                 self.vars.push(before + 1);
             }
+            "xcell" | "xsum" | "xjoin" => {
+                // expert node (visible, int-valued) + its controlling node (hidden)
+                set(&mut self.tys, before + 1, Ty::Int);
+                self.experts.push(before + 1);
+            }
+            "memo_new" => self.memos += 1,
             "const" | "map2" | "fold" | "mwo" | "dependon" => set(&mut self.tys, before + 1, Ty::Int),
             "map" => {
                 let f = a["f"].as_str().unwrap();
@@ -212,6 +276,7 @@ fn main() {
         let mut g = Gen {
             rng: StdRng::seed_from_u64(seed.wrapping_mul(1_000_003).wrapping_add(run as u64)),
             k, tys: vec![], vars: vec![], nobs: 0, live_obs: vec![], subs: vec![], next_tok: vec![], profile: profile.clone(),
+            nvars: vec![], experts: vec![], memos: 0, crash: false, nupd: 0,
         };
         let mut sess = Session::new(None);
         let mut script: Vec<J> = vec![];
